@@ -518,6 +518,53 @@ where
     }
 }
 
+/// Verification hooks: single-step the requester and inspect its state.
+#[cfg(feature = "verif-hooks")]
+impl<N> Repair<N>
+where
+    N: RepairRequesterNetwork,
+{
+    /// Handles one response exactly as [`Repair::repair_loop`] does when it receives it.
+    pub async fn verif_handle_response(&mut self, response: RepairResponse) {
+        self.handle_response(response).await;
+    }
+
+    /// Number of entries in the timeout queue (entries of answered requests included).
+    #[must_use]
+    pub fn verif_pending_timeouts(&self) -> usize {
+        self.request_timeouts.len()
+    }
+
+    /// Fires the earliest pending timeout: the body of the timeout branch of
+    /// [`Repair::repair_loop`], without waiting for the expiry.
+    ///
+    /// Returns the request that was retried, if the timed-out request was still outstanding.
+    pub async fn verif_fire_next_timeout(&mut self) -> Option<RepairRequestType> {
+        let Reverse((_, hash)) = self.request_timeouts.pop()?;
+        let request = self.outstanding_requests.remove(&hash)?;
+        debug!("retrying timed-out repair request {request:?}");
+        if let Err(err) = self.send_request(request.clone()).await {
+            warn!("sending timed-out repair request failed: {err}");
+        }
+        Some(request)
+    }
+
+    /// The requests currently considered outstanding.
+    #[must_use]
+    pub fn verif_outstanding(&self) -> Vec<RepairRequestType> {
+        self.outstanding_requests.values().cloned().collect()
+    }
+
+    /// The slice roots currently considered proven.
+    #[must_use]
+    pub fn verif_slice_roots(&self) -> Vec<(BlockId, SliceIndex, SliceRoot)> {
+        self.slice_roots
+            .iter()
+            .map(|((block_id, slice), root)| (block_id.clone(), *slice, root.clone()))
+            .collect()
+    }
+}
+
 #[cfg(test)]
 mod tests {
     use std::collections::BTreeSet;
